@@ -519,6 +519,8 @@ def write_meta_data(md, md_file):
             if isinstance(val, float):
                 if val.is_integer():
                     val = int(val)
+                else:  # positional notation: read_meta_data does not parse exponents (5e-05 would come back as a string)
+                    val = np.format_float_positional(val, trim="-")
             fid.write(f"{key}={val}\n")
 
 
